@@ -78,3 +78,24 @@ Print Assumptions C01_action_frame.
 Print Assumptions C01_polled_flags.
 Print Assumptions C01_every_evaluation_of_a_frame.
 Print Assumptions C01_frame_is_its_evaluations.
+
+(* ---- per (context type, entity, action), in any well-formed registry (Proofs/TrackFrameP.v): what entity e
+   receives for action a in a frame is exactly the transition table of (stored state, new state), in table
+   order, each event built from the stored data after ActionData::update - or nothing if e has no instance
+   binding a ---- *)
+From BEI Require Import Proofs.TrackDefs Proofs.TrackFrameP.
+Theorem C01_world_frame : forall sc c e a tm r c0 gs,
+  reg_wf gs -> cfg_inv sc gs -> owner sc c a -> ev_free sc c a ->
+  let o := reg_update tm r c0 gs in
+  exists main, ro_events o = Some main /\
+    cfg_inv sc (ro_reg o) /\
+    match stored gs c e a with
+    | None => ev_of e a main = [] /\ stored (ro_reg o) c e a = None
+    | Some d => exists (s1 : state) (v : value),
+        let d' := data_update (vdelta tm) d s1 v in
+        vdim v = aid_dim a /\
+        stored (ro_reg o) c e a = Some d' /\
+        ev_of e a main = map (fun k => mk_event a d' k e) (table (d_state d) s1)
+    end.
+Proof. exact track_frame. Qed.
+Print Assumptions C01_world_frame.
